@@ -84,7 +84,7 @@ func VerifC06_Signatures() {
 	env.SetupFees(sdkmath.LegacyMustNewDecFromStr("1.5"), 0, 1, 2)
 	msg := &evmtypes.Message{TurnstoneID: "compass-" + ChainA, ChainReferenceID: ChainA, Assignee: Vals[0].String(), AssigneeRemoteAddress: models.EthAddrs[0],
 		AssignedAtBlockHeight: sdkmath.NewInt(100),
-		Action: &evmtypes.Message_SubmitLogicCall{SubmitLogicCall: &evmtypes.SubmitLogicCall{HexContractAddress: "0x6666666666666666666666666666666666666666", Payload: []byte{1, 2}, Deadline: 1000, SenderAddress: []byte("sender-address-20byt")}}}
+		Action:                &evmtypes.Message_SubmitLogicCall{SubmitLogicCall: &evmtypes.SubmitLogicCall{HexContractAddress: "0x6666666666666666666666666666666666666666", Payload: []byte{1, 2}, Deadline: 1000, SenderAddress: []byte("sender-address-20byt")}}}
 	id, err := env.Consensus.PutMessageInQueue(env.Ctx, c06Queue, msg, &consensus.PutOptions{RequireSignatures: true, RequireGasEstimation: true})
 	if err != nil {
 		panic(err)
